@@ -138,10 +138,13 @@ def _acyclic_without(P, comp, removed, removed_edges=()):
 def _dispatch_keys(f):
     dkeys = []
     for n in f.walk():
+        k = None
         if n["k"] == "SwitchStmt":
             k = key(n["c"][0])
-            if k.endswith("->type") and k not in dkeys:
-                dkeys.append(k)
+        elif n["k"] == "BinaryOperator" and n["op"] in ("==", "!=") and const_value(n["c"][1]) is not None:
+            k = key(n["c"][0])     # if-chain form of a dispatch
+        if k and k.endswith("->type") and k not in dkeys:
+            dkeys.append(k)
     pnames = {p[0] for p in f.params}
     dkeys.sort(key=lambda k: (k[:-len("->type")] not in pnames, len(k)))
     return dkeys
